@@ -1789,7 +1789,17 @@ fn stalled_sender(out: &mut Out, sv: &Servers, epname: &str, k: usize, cut: usiz
     std::thread::sleep(Duration::from_millis(if long { 900 } else { 60 }));
     let _ = s.write_all(&last[cut..]);
     let _ = s.write_all(&sentinel(S1));
-    let bytes = net::drain(&mut s, 1 << 22, Duration::from_secs(if long { 3 } else { 8 }));
+    // read until the sentinel's answer, EOF / reset, or 8 s of silence
+    let mut bytes = Vec::new();
+    let mut tmp = [0u8; 65536];
+    s.set_read_timeout(Some(Duration::from_secs(8))).ok();
+    loop {
+        match s.read(&mut tmp) {
+            Ok(0) | Err(_) => break,
+            Ok(n) => bytes.extend_from_slice(&tmp[..n]),
+        }
+        if RawFrame::split_stream(&bytes).0.iter().any(|f| f.h.id == S1) { break; }
+    }
     let (frames, _tail) = RawFrame::split_stream(&bytes);
     let ids: Vec<u64> = frames.iter().map(|f| f.h.id).filter(|i| *i != S1).collect();
     let full: Vec<u64> = (0..k as u64).map(|i| 960_000 + i).collect();
@@ -2110,7 +2120,7 @@ fn main() {
                 11 => { let k = rng.range(2, 12) as usize; tcp_burst_then_garbage(&mut out, &sv, *rng.pick(&["tcp", "tcpw", "atcp", "atcpw", "tcpn", "atcpn", "tcpz", "atcpz"]), k, s); }
                 13 => { let id = *rng.pick(&[0u64, 1, 7, u64::MAX, 1 << 63]); let k = *rng.pick(&[2usize, 3, 5, 9, 17, 65]); dup_ids(&mut out, &sv, id, k, s); }
                 3 => panic_offreader(&mut out, &sv, *rng.pick(&["ws", "wsn", "wsq"]), s),
-                1 => { let m = rng.range(3, 6) as usize; offreader_backpressure(&mut out, &sv, *rng.pick(&["wsq", "wsp", "wsb", "wsn"]), m, *rng.pick(&[400u64, 900]), s); }
+                1 => { let m = rng.range(3, 6) as usize; offreader_backpressure(&mut out, &sv, *rng.pick(&["wsq", "wsp", "wsb", "wsn"]), m, if args.thorough() { *rng.pick(&[400u64, 900]) } else { 350 }, s); }
                 6 => { let long = rng.chance(1, 2); let k = rng.range(0, 5) as usize; let cut = *rng.pick(&[1usize, 8, 47, 48, 49, 53, 56]); stalled_sender(&mut out, &sv, *rng.pick(&["tcps", "atcps"]), k, cut, long, s); }
                 8 => tcp_inline_panic(&mut out, &sv, *rng.pick(&["tcp", "tcpn", "atcp", "atcpn", "tcpw", "atcpw"]), *rng.pick(&["str", "any"]), s),
                 14 => { let n = rng.range(2, 8) as usize; shutdown_midflight(&mut out, &sv, s % 32 == 14, n, s); }
